@@ -102,6 +102,32 @@ def run_unit(ctx, u):
                     ctx.violation(f"{name}|{fam}|clean decode|wrong message", setup=label, A=A, message=msgs[i], decoded=out[i], llr=llr[i])
                 else:
                     ctx.ok("clean decode", msgs.shape[0])
+            # the same decoder object, batch sizes changing from call to call (1, all, 2, 5, 1, all) and a permuted
+            # 3-D view: nothing remembered from the previous call's batch may be reused
+            dec2 = dec
+            llr = (1 - 2 * cw) * 2.0
+            M = msgs.shape[0]
+            for bs in (1, M, 2, min(5, M), 1, M):
+                ctx.case("clean-batch-sizes", name, label, bs)
+                try:
+                    out = dec2(llr[:bs])
+                    out = out[0] if isinstance(out, tuple) else out
+                    ok = tuple(out.shape) == (bs, k) and bool((out.double().round() == msgs[:bs].double()).all())
+                    ctx.check(ok, "clean decode", f"{name}|{fam}|clean decode|wrong message after a call with another batch size", setup=label, batch=bs)
+                except Exception as e:  # noqa: BLE001
+                    ctx.violation(f"{name}|{fam}|clean decode|raised:{type(e).__name__} after a call with another batch size", setup=label, batch=bs, error=str(e)[:200])
+            if M >= 4:
+                m4 = (M // 2) * 2
+                x3 = llr[:m4].reshape(2, m4 // 2, n)
+                view = x3.permute(1, 0, 2).contiguous().permute(1, 0, 2)
+                ctx.case("clean-permuted-view", name, label)
+                try:
+                    o_c = dec2(x3)
+                    o_v = dec2(view)
+                    o_c, o_v = [t[0] if isinstance(t, tuple) else t for t in (o_c, o_v)]
+                    ctx.check(bool(torch.equal(o_c, o_v)), "clean decode", f"{name}|{fam}|clean decode|a permuted view of the same values decodes differently", setup=label)
+                except Exception:  # noqa: BLE001
+                    ctx.skip("3-D input rejected")
         ctx.sample({"unit": u["unit"], "magnitudes": [0.5, 1.0, 4.0, 50.0]})
         return
 
